@@ -95,7 +95,16 @@ pub enum Op {
     GetPrio { id: u32, k: bool },
     GetMut { id: u32, k: bool, touch: bool },
     Observe,
-    IterMut { n: usize, writes: Vec<Option<i64>>, touch: bool, leak: bool, via_ref: bool },
+    IterMut {
+        n: usize,
+        writes: Vec<Option<i64>>,
+        touch: bool,
+        leak: bool,
+        via_ref: bool,
+        /// after the n front calls: this many next_back calls (where the iterator offers them)
+        #[serde(default)]
+        back: usize,
+    },
     Retain { pred: Pred },
     RetainMut { pred: Pred, rewrite: Rewrite },
     Extend { pairs: Vec<(u32, i64)>, hint: Hint },
@@ -799,7 +808,7 @@ impl<Q: QueueApi> State<Q> {
                 }
                 Ok(Ret::Multi(v))
             }
-            Op::IterMut { n, writes, touch, leak, via_ref } => {
+            Op::IterMut { n, writes, touch, leak, via_ref, back } => {
                 let mut seen: BTreeSet<u32> = BTreeSet::new();
                 let mut out = Vec::new();
                 let mut wrote = false;
@@ -840,6 +849,28 @@ impl<Q: QueueApi> State<Q> {
                             None => {
                                 if seen.len() != model.len() {
                                     return Err(mon.predlog(format!("iter_mut ended after {} of {} elements", seen.len(), model.len())));
+                                }
+                            }
+                        }
+                    }
+                    for _ in 0..*back {
+                        match Q::im_next_back(&mut it) {
+                            None => break, // not offered by this iterator type
+                            Some(Some((i, p))) => {
+                                let id = i.id();
+                                if !seen.insert(id) {
+                                    return Err(mon.predlog(format!("iter_mut yielded item {} twice (from the back)", id)));
+                                }
+                                match model.m.get(&id) {
+                                    Some(e) if e.ord == p.ord && e.tag == p.tag && e.payload == i.payload => {}
+                                    Some(e) => return Err(mon.content(format!("iter_mut (back): id {} priority {} payload {} expected {} / {}", id, p.ord, i.payload, e.ord, e.payload))),
+                                    None => return Err(mon.content(format!("iter_mut yielded item {} which is not stored", id))),
+                                }
+                                out.push((id, p.ord));
+                            }
+                            Some(None) => {
+                                if seen.len() != model.len() {
+                                    return Err(mon.predlog(format!("iter_mut ended (from the back) after {} of {} elements", seen.len(), model.len())));
                                 }
                             }
                         }
